@@ -14,6 +14,7 @@ import (
 	"strings"
 	"sync"
 	"sync/atomic"
+	"syscall"
 	"time"
 )
 
@@ -373,6 +374,7 @@ func coordinate(c *Check, tier string) int {
 					w.kill()
 					w = nil
 					r = rerunDead(c, tier, wi, id, tasks[id].Name)
+					r.count("worker_deaths", 1)
 				}
 				absorb(r, tasks[id].Level)
 			}
@@ -461,6 +463,34 @@ func truncate(s string, n int) string {
 	return s[:n] + "…"
 }
 
+var knownCache []*knownFinding
+var knownLoaded bool
+
+// isKnown reports whether v matches an open known finding (workers use it to keep exploring past it).
+func isKnown(v *Violation) bool {
+	if !knownLoaded {
+		knownCache = loadKnown(filepath.Join(verifDir(), "KNOWN_FINDINGS.txt"))
+		knownLoaded = true
+	}
+	for _, k := range knownCache {
+		if k.Prop == v.Prop && k.Re.MatchString(v.Clause+"|"+v.Sig) {
+			return true
+		}
+	}
+	return false
+}
+
+// addViolation appends v to res unless the same clause|sig is already there (bounded volume).
+func addViolation(res *TaskResult, v *Violation) {
+	for i := range res.Violations {
+		if res.Violations[i].Clause == v.Clause && res.Violations[i].Sig == v.Sig {
+			res.count("dup:"+v.Clause, 1)
+			return
+		}
+	}
+	res.Violations = append(res.Violations, *v)
+}
+
 // rerunDead re-executes a task whose worker died, with per-execution announcements, up to 5 times.
 // Deterministic death => a violation whose replay is the announced trace; otherwise a harness error.
 func rerunDead(c *Check, tier string, wi, id int, name string) *TaskResult {
@@ -539,9 +569,18 @@ func workerAbort(reason string) {
 	os.Exit(3)
 }
 
+func cpuSeconds() float64 {
+	var ru syscall.Rusage
+	if err := syscall.Getrusage(syscall.RUSAGE_SELF, &ru); err != nil {
+		return 0
+	}
+	return float64(ru.Utime.Sec+ru.Stime.Sec) + float64(ru.Utime.Usec+ru.Stime.Usec)/1e6
+}
+
 func watchdog() {
 	last, lastChange := int64(-1), time.Now()
 	busy := false
+	cpuAtChange := cpuSeconds()
 	for {
 		time.Sleep(250 * time.Millisecond)
 		if data, err := os.ReadFile("/proc/self/statm"); err == nil {
@@ -556,10 +595,15 @@ func watchdog() {
 		busy = workerBusy.Load()
 		if cur != last || !busy {
 			last, lastChange = cur, time.Now()
+			cpuAtChange = cpuSeconds()
 			continue
 		}
-		if time.Since(lastChange) > 20*time.Second {
-			workerAbort("hang: one execution made no progress for 20 s (infinite loop or real blocking in the code under test)")
+		// a spinning execution burns CPU; a stalled machine (snapshot, I/O freeze) does not
+		if time.Since(lastChange) > 30*time.Second && cpuSeconds()-cpuAtChange > 25 {
+			workerAbort("hang: one execution made no progress for 30 s while burning CPU (infinite loop in the code under test)")
+		}
+		if time.Since(lastChange) > 300*time.Second {
+			workerAbort("hang: one execution made no progress for 300 s (real blocking in the code under test)")
 		}
 	}
 }
